@@ -137,6 +137,49 @@ def oracle(tpl: bytes, holes, params, got_sql: str, positions=None):
     return None
 
 
+def refused_execution_probe():
+    """long data belongs to ONE execution attempt: sent for an execution the parser refuses (an unsupported parameter type), it
+    is not bound by the next execution in front of that execution's own long data (c06_long_data_since_last_use: a refused
+    execution of a known statement uses its long data up)"""
+    env = impl.Env(own_sleep=False)
+    try:
+        log = []
+
+        class S(impl.ScriptSession):
+            async def handle_query(self, sql, attrs):
+                log.append(sql)
+                return None
+
+        srv = impl.make_server(env, lambda: S(env, 0))
+        c = impl.Conn(env, srv)
+        env.settle(); c.take()
+        c.feed(cl.frame(cl.handshake_response(user=b"u", caps=cl.BASE_CAPS, charset=8), 1)); c.take()
+        c.feed(cl.frame(bytes([cl.COM_STMT_PREPARE]) + b"INSERT INTO t VALUES (?, ?)", 0))
+        sid = struct.unpack_from("<I", cl.reassemble(c.take())[0][1], 1)[0]
+
+        def long_data(data):
+            c.feed(cl.frame(bytes([cl.COM_STMT_SEND_LONG_DATA]) + struct.pack("<IH", sid, 0) + data, 0)); c.take()
+
+        def execute(second):
+            p0 = pk.P(b"", pk.T_VAR_STRING, False, b"ignored"); p0.long_data = True
+            c.feed(cl.frame(bytes([cl.COM_STMT_EXECUTE]) + pk.encode_execute(False, sid, 0, [p0, second], []), 0))
+            return cl.split_raw(c.take())
+        long_data(b"AAAA")
+        rep = execute(pk.P(b"", 12, False, b"2024-01-01"))            # MYSQL_TYPE_DATETIME: not supported, ERR 1235
+        refused = bool(rep) and rep[0][1][:1] == b"\xff" and not log
+        long_data(b"BBBB")
+        execute(pk.P(b"", pk.T_VAR_STRING, False, b"x"))
+        c.eof()
+        want = "INSERT INTO t VALUES ('BBBB', 'x')"
+        if refused and log != [want]:
+            return dict(problem="long data sent for an execution that was refused is bound by the next execution",
+                        sequence=["PREPARE 'INSERT INTO t VALUES (?, ?)'", "SEND_LONG_DATA p0 'AAAA'", "EXECUTE with p1 typed DATETIME -> ERR",
+                                  "SEND_LONG_DATA p0 'BBBB'", "EXECUTE (long data, 'x')"], application_received=log, expected=[want])
+        return None
+    finally:
+        env.close()
+
+
 def run(ctx: core.Ctx):
     rng = ctx.rng
     pr = core.check_proofs(ctx, "Props/C06", headers=[pk.HEADER])
@@ -337,6 +380,10 @@ def run(ctx: core.Ctx):
 
     # ---- whole histories of prepared-statement commands on one connection against Model/Stmts.v (the statement table with
     #      its long-data buffers): what an earlier command leaves behind is what a later one finds
+    rp = refused_execution_probe()
+    ctx.evals += 2
+    if rp and witness is None:
+        witness = dict(kind="refused-execution-long-data", **rp)
     import stmts_corr
     nhist, nops, hbad, hkinds = stmts_corr.run(ctx, "c06s", 40 if ctx.quick else 800)
     ctx.evals += nops
